@@ -245,6 +245,9 @@ Definition templates_ok (ts : list (list piece)) (codes locs : list str) : bool 
 Definition xml_char (c : Z) : bool :=
   (c =? 9) || (c =? 10) || (c =? 13) || ((32 <=? c) && (c <=? 55295)) || ((57344 <=? c) && (c <=? 65533))
   || ((65536 <=? c) && (c <=? 1114111)).
+(* replacement of every character that XML 1.0 cannot represent by U+FFFD (the repair proposed in
+   proposed_fixes/C18-xml-illegal-characters.md: _xml_illegal.sub(U+FFFD, msg)) *)
+Definition xml_sanitize (s : str) : str := map (fun c => if xml_char c then c else 65533) s.
 Definition template_chars_ok (t : list piece) (code loc : option str) : bool :=
   forallb xml_char (render (env0 code loc) (tpl_before t)) && forallb xml_char (render (env0 code loc) (tpl_after t)).
 Definition templates_chars_ok (ts : list (list piece)) (codes locs : list str) : bool :=
